@@ -663,6 +663,52 @@ fn part_c(ctx: &Ctx) -> (u64, u64) {
             }
         }
     });
+    // interactive shells poll for signals in more places (e.g. while scanning directories for
+    // pathname expansion): a trapped signal other than SIGINT must never disturb the commands
+    for text in ["trap 'p T' USR1\np a\nargs * d/*\nargs .* ?\nfor i in *; do args $i; done\np end\n", "trap 'p T' USR1; trap 'p C' CHLD\np a\n(s 1); args */ [a-z]*\nx=$(s 0); args \"$x\" *\np end\n"] {
+        fn plain_setup(text: &str) -> Setup {
+            let mut setup = Setup::script("");
+            setup.argv = vec!["yash".into(), "-i".into(), "-s".into()];
+            setup.stdin = Some(text.as_bytes().to_vec());
+            setup.dirs.push("/tmp/g/d".into());
+            for f in ["/tmp/g/a.txt", "/tmp/g/b", "/tmp/g/.h", "/tmp/g/d/x", "/tmp/g/d/y"] {
+                setup.files.push((f.into(), vec![], 0o644));
+            }
+            setup.cwd = Some("/tmp/g".into());
+            setup
+        }
+        let opts = |at: Vec<(usize, i32)>| RunOpts { inject: Some(Inject { at, pid: 2 }), ..Default::default() };
+        let base = run_once(&plain_setup(text), &opts(vec![]));
+        execs.fetch_add(1, Relaxed);
+        let strip = |r: &Run| -> Vec<String> { base_trace(r).into_iter().filter(|m| !m.starts_with("T:") && !m.starts_with("C:")).map(|m| m.split(':').next().unwrap_or("").to_string()).collect() };
+        let want = strip(&base);
+        if !matches!(base.end, End::Exited(_)) || !want.iter().any(|m| m == "end") || !want.iter().any(|m| m.contains("[a.txt]")) {
+            ctx.violation("c11:interactive-baseline", &format!("undisturbed interactive run: {:?}, trace {want:?}, stderr {:?}", base.end, base.stderr), json!({"part": "c", "script": text}));
+            continue;
+        }
+        let k0 = base.trace.iter().find(|e| e.pid == 2).map_or(0, |e| e.at_tap);
+        // after the last command has run no command boundary is left: the trap may or may not run
+        let last_cmd_tap = base.trace.iter().filter(|e| e.pid == 2).last().map_or(0, |e| e.at_tap);
+        let results: Vec<(usize, Vec<String>, usize, End)> = (k0..base.target_taps)
+            .into_par_iter()
+            .map(|k| {
+                let r = run_once(&plain_setup(text), &RunOpts { inject: Some(Inject { at: vec![(k, usr1)], pid: 2 }), ..Default::default() });
+                let nt = base_trace(&r).iter().filter(|m| m.starts_with("T:")).count();
+                let got: Vec<String> = base_trace(&r).into_iter().filter(|m| !m.starts_with("T:") && !m.starts_with("C:")).map(|m| m.split(':').next().unwrap_or("").to_string()).collect();
+                (k, got, nt, r.end.clone())
+            })
+            .collect();
+        for (k, got, nt, end) in results {
+            execs.fetch_add(1, Relaxed);
+            judged.fetch_add(1, Relaxed);
+            let case = || json!({"part": "c", "script": text, "inject": [[k, usr1]], "cwd": "/tmp/g"});
+            if got != want || !matches!(end, End::Exited(_)) {
+                ctx.violation("c11:interactive-command-disturbed", &format!("a trapped SIGUSR1 at system call {k} changed the commands' results: {got:?} (end {end:?}), undisturbed {want:?}"), case());
+            } else if nt > 1 || (nt == 0 && k < last_cmd_tap) {
+                ctx.violation("c11:trap-count", &format!("SIGUSR1 delivered once at system call {k}, its trap ran {nt} times"), case());
+            }
+        }
+    }
     (execs.load(Relaxed), judged.load(Relaxed))
 }
 
@@ -672,6 +718,13 @@ pub fn replay(case: &serde_json::Value) -> i32 {
         let mut setup = Setup::script("");
         setup.argv = vec!["yash".into(), "-i".into(), "-s".into()];
         setup.stdin = Some(text.as_bytes().to_vec());
+        if case["cwd"].is_string() {
+            setup.dirs.push("/tmp/g/d".into());
+            for f in ["/tmp/g/a.txt", "/tmp/g/b", "/tmp/g/.h", "/tmp/g/d/x", "/tmp/g/d/y"] {
+                setup.files.push((f.into(), vec![], 0o644));
+            }
+            setup.cwd = Some("/tmp/g".into());
+        }
         let at: Vec<(usize, i32)> = case["inject"].as_array().map(|a| a.iter().map(|p| (p[0].as_u64().unwrap() as usize, p[1].as_i64().unwrap() as i32)).collect()).unwrap_or_default();
         let r = vsh::run_once(&setup, &RunOpts { inject: Some(Inject { at, pid: 2 }), log_taps: true, ..Default::default() });
         let taps: Vec<String> = r.tap_log.iter().filter(|(p, _)| *p == 2).enumerate().skip(80).map(|(i, (_, n))| format!("{i}:{n}")).collect();
@@ -712,7 +765,7 @@ pub fn run(tier: Tier) -> i32 {
         "part_b_syscall_injection_points": points,
         "part_b_double_deliveries_that_coalesced": coalesced,
         "part_b_executions_in_which_the_signal_interrupted_wait": INTERRUPTED_WAITS.load(Relaxed),
-        "explanation": "(a) BFS by history replay over the real TrapSet bound to a real Concurrent<VirtualSystem>: ops = set_action(Default|Ignore|Command, override f/t) per signal, peek_state, catch_signal (a delivery is reported) and take_signal_if_caught (a command action has to run iff a delivery was reported since the action was set, exactly once), enable/disable each internal disposition group, enter_subshell with each option pair; per signal class {INT,QUIT,TERM,CHLD,TSTP,USR1,KILL,STOP} x initial disposition {default, ignored} and 4 signal pairs; after every op the disposition installed in the simulated process and its signal mask are read back and compared with the reference merge max(internal, user) (caught <=> blocked), return values compared, states merged on (model, Debug of the trap set, installed dispositions). (b) 8 scripts with traps: the signal is raised on the shell at every simulated system call index k (and at pairs k1,k2); the markers outside the trap and the exit status must equal the undisturbed run, the trap must run exactly once per delivery (1..n for n coalescing deliveries). (c) interactive shells (-i) whose built-in (read, cat, a function reading) blocks on a pipe: SIGINT alone, SIGUSR1+SIGINT in either order at the same system call, and at consecutive calls, at every system call index; executions in which the built-in was interrupted must run the USR1 trap exactly once, discard the rest of the interrupted line only, and go on with the next lines",
+        "explanation": "(a) BFS by history replay over the real TrapSet bound to a real Concurrent<VirtualSystem>: ops = set_action(Default|Ignore|Command, override f/t) per signal, peek_state, catch_signal (a delivery is reported) and take_signal_if_caught (a command action has to run iff a delivery was reported since the action was set, exactly once), enable/disable each internal disposition group, enter_subshell with each option pair; per signal class {INT,QUIT,TERM,CHLD,TSTP,USR1,KILL,STOP} x initial disposition {default, ignored} and 4 signal pairs; after every op the disposition installed in the simulated process and its signal mask are read back and compared with the reference merge max(internal, user) (caught <=> blocked), return values compared, states merged on (model, Debug of the trap set, installed dispositions). (b) 8 scripts with traps: the signal is raised on the shell at every simulated system call index k (and at pairs k1,k2); the markers outside the trap and the exit status must equal the undisturbed run, the trap must run exactly once per delivery (1..n for n coalescing deliveries). (c) interactive shells (-i) whose built-in (read, cat, a function reading) blocks on a pipe: SIGINT alone, SIGUSR1+SIGINT in either order at the same system call, and at consecutive calls, at every system call index; executions in which the built-in was interrupted must run the USR1 trap exactly once, discard the rest of the interrupted line only, and go on with the next lines; two interactive scripts with pathname expansion, loops, subshells and substitutions under SIGUSR1 alone at every system call: results unchanged, trap exactly once",
     });
     ctx.finish(cov, &["signals are injected at syscall boundaries of the simulator (complete because caught signals are blocked outside select)", "reference merge model trusted"])
 }
